@@ -110,6 +110,11 @@ func (fr *frame) classifyCall(cc *ssa.CallCommon) (int, *FuncContract, *ssa.Func
 		return callDynamic, nil, nil
 	}
 	if c := fc.eng.ContractFor(callee); c != nil {
+		if c.Inline && !c.Trusted && callee.Blocks != nil && fc.depth < 3 && inlinable(callee) {
+			// `inline`: the contract is proved for the function itself and its preconditions are obligations at every
+			// call site, but callers see the body (exact) instead of the postconditions
+			return callInline, c, callee
+		}
 		return callContract, c, callee
 	}
 	if intrinsics[intrinsicName(cc)] {
@@ -227,6 +232,9 @@ func (fr *frame) call(v *ssa.Call, cc *ssa.CallCommon, st *State, R string, b *s
 		fr.contractCall(v, resName, ctr, callee, cc, st, R)
 	case callInline:
 		resName = declareResults()
+		if ctr != nil && len(ctr.Requires) > 0 {
+			fr.requiresAtCall(v, ctr, callee, cc, st, R)
+		}
 		fr.inlineCall(v, resName, callee, cc, st, R)
 	case callPure:
 		resName = declareResults()
@@ -840,6 +848,33 @@ func (fr *frame) contractCall(v *ssa.Call, resName string, ctr *FuncContract, ca
 		resT = v.Type()
 	}
 	fr.applyContract(ctr, callee, cc, argTerms, argTypes, resName, resT, st, R, v)
+}
+
+// requiresAtCall: the callee's preconditions as obligations (and then facts) at this call site; used for `inline` contracts.
+func (fr *frame) requiresAtCall(v *ssa.Call, ctr *FuncContract, callee *ssa.Function, cc *ssa.CallCommon, st *State, R string) {
+	fc := fr.fc
+	var argTerms []string
+	var argTypes []types.Type
+	for _, a := range cc.Args {
+		argTerms = append(argTerms, fr.val(a))
+		argTypes = append(argTypes, a.Type())
+	}
+	site := ""
+	if v != nil && v.Pos().IsValid() {
+		p := fr.fn.Prog.Fset.Position(v.Pos())
+		site = fmt.Sprintf("%s:%d", shortFile(p.Filename), p.Line)
+	}
+	pre := st.clone()
+	envPre := fr.calleeEnv(ctr, callee, cc, argTerms, argTypes, "", nil, pre, pre)
+	envPre.old = nil
+	for _, c := range ctr.Requires {
+		if len(c.OnlyFor) > 0 && fc.eng.CurProp != "" && !containsStr(c.OnlyFor, fc.eng.CurProp) {
+			continue
+		}
+		g := envPre.tr(c.E)
+		fc.obls = append(fc.obls, &Obl{Func: fc.key, Kind: "requires", Label: ctr.Key + ":" + c.Label, Site: fr.prefix + site, NFacts: len(fc.facts), Path: R, Goal: g.T, Text: c.Text})
+		fc.fact("", "(=> %s %s)", R, g.T)
+	}
 }
 
 func (fr *frame) applyContract(ctr *FuncContract, callee *ssa.Function, cc *ssa.CallCommon, argTerms []string, argTypes []types.Type, resName string, resT types.Type, st *State, R string, v *ssa.Call) {
